@@ -77,9 +77,9 @@ type CaseFile struct {
 
 type stats struct {
 	mu        sync.Mutex
-	Property  string            `json:"property"`
-	Evals     int64             `json:"evaluations"`
-	NonTriv   int64             `json:"nontrivial_total"`
+	Property  string `json:"property"`
+	Evals     int64  `json:"evaluations"`
+	NonTriv   int64  `json:"nontrivial_total"`
 	hashes    map[uint64]struct{}
 	Labels    map[string]int64  `json:"labels"`
 	Counters  map[string]int64  `json:"counters"`
@@ -388,3 +388,39 @@ func WriteStats() {
 	}
 	os.WriteFile(path+".hashes", buf, 0644)
 }
+
+var uniformGens [40]*rapid.Generator[int]
+
+func init() {
+	for k := range uniformGens {
+		k := k
+		uniformGens[k] = rapid.Custom(func(t *rapid.T) int {
+			v := 0
+			for i := 0; i < k; i++ {
+				if rapid.Bool().Draw(t, "b") {
+					v |= 1 << uint(i)
+				}
+			}
+			return v
+		})
+	}
+}
+
+// Uniform draws an (almost exactly) uniform integer in [0,n). rapid's own integer
+// generators are deliberately biased towards small values, which starves the later
+// alternatives of weighted choices; this one is built from fair coin flips and still
+// shrinks towards 0.
+func Uniform(t *rapid.T, n int, label string) int {
+	if n <= 1 {
+		return 0
+	}
+	bits := 0
+	for (1 << uint(bits)) < n {
+		bits++
+	}
+	bits += 4 // modulo bias < 1/16 relative
+	return uniformGens[bits].Draw(t, label) % n
+}
+
+// Chance is true with probability pct/100 (uniform).
+func Chance(t *rapid.T, pct int, label string) bool { return Uniform(t, 100, label) < pct }
